@@ -221,6 +221,7 @@ struct FamilyAgg {
     nontrivial: u64,
     executions: u64,
     cli_runs: u64,
+    cpu_s: f64,
     samples: BTreeMap<u64, String>,
 }
 
@@ -300,6 +301,7 @@ fn check_main(property: &str) -> ! {
                 fam.nontrivial += n("nontrivial");
                 fam.executions += n("executions");
                 fam.cli_runs += n("cli_runs");
+                fam.cpu_s += v["cpu_s"].as_f64().unwrap_or(0.0);
                 if let Some(s) = v["sample"].as_str() {
                     fam.samples.insert(uid, s.to_string());
                     if fam.samples.len() > 3 {
@@ -344,7 +346,7 @@ fn check_main(property: &str) -> ! {
     let per_family: BTreeMap<&String, Value> = fams
         .iter()
         .map(|(k, f)| (k, json!({"texts": f.members, "without_syntax_diagnostic": f.valid,
-            "nontrivial": f.nontrivial, "executions": f.executions, "cli_runs": f.cli_runs})))
+            "nontrivial": f.nontrivial, "executions": f.executions, "cli_runs": f.cli_runs, "cpu_seconds": f.cpu_s.round()})))
         .collect();
     let outcome_list: Vec<&String> = outcomes.iter().take(40).collect();
     let coverage = json!({
@@ -367,7 +369,8 @@ fn check_main(property: &str) -> ! {
         "work_units": plan.units.len(),
         "workers": workers,
         "cases_attributed_in_own_subprocess": attributed,
-        "violation_keys": keys.iter().map(|(k, a)| json!({"key": k, "count": a.count})).collect::<Vec<_>>(),
+        "violation_keys": keys.iter().map(|(k, a)| json!({"key": k, "count": a.count,
+            "shortest_text": a.best.as_ref().map(|b| b.0.chars().take(300).collect::<String>())})).collect::<Vec<_>>(),
     });
     // one violation per key first (shortest text), so that every distinct key gets a replay file
     let mut rest = vec![];
